@@ -16,7 +16,7 @@ Three kinds of case, each reproducible from (kind, seed):
          its own registration state), else reached the end time; TTP times = first crossings of a run WITHOUT conditions;
          the whole call sequence goes to the model in one line (verb sc.hist).  Scripted model + one real Al-Zr history.
 """
-import contextlib, io, math, os, traceback, types
+import contextlib, hashlib, io, math, os, re, traceback, types
 import numpy as np
 import vlib
 from vlib import Result, enc_list, f2b, Toks, close
@@ -679,6 +679,23 @@ def part_synth(ctx, res, N, oracle_only):
 
 
 # ---- TTP calculator on scripted histories
+def pbm_state(M):
+    """configuration and grid of every population balance model of a PrecipitateModel (None: the model has none)"""
+    P = getattr(M, 'PBM', None)
+    if P is None:
+        return None
+    out = []
+    for p in P:
+        b = np.asarray(p.PSDbounds, dtype=float)
+        out.append(dict(originalMin=float(p.originalMin), originalMax=float(p.originalMax), originalBins=int(p.originalBins),
+                        minBins=int(p.minBins), maxBins=int(p.maxBins), adaptive=bool(p._adaptiveBinSize), record=bool(p._record),
+                        min=float(p.min), max=float(p.max), bins=int(p.bins),
+                        grid_is_linspace=bool(len(b) == int(p.bins) + 1 and np.array_equal(b, np.linspace(p.min, p.max, int(p.bins) + 1))),
+                        psd_len=int(len(p.PSD)), psd_zero=bool(not np.any(np.asarray(p.PSD))),
+                        recorded_rows=(None if p._recordedTime is None else int(len(p._recordedTime)))))
+    return out
+
+
 class SnapPool:
     """calculateTTP accepts any object with .map; this one records the model after every temperature"""
     def __init__(self, model, objs):
@@ -693,7 +710,7 @@ class SnapPool:
             out.append(r)
             self.snaps.append(dict(T=float(x), pre=pre, ret=np.array(r, dtype=float), H=pdata_hist(self.model.pData), m=self.model.pData.n,
                                    tf=float(self.model.finalTime), post=[(bool(o.isSatisfied()), float(o.satisfiedTime())) for o in self.objs],
-                                   temperature=np.array(self.model.pData.temperature, dtype=float)))
+                                   temperature=np.array(self.model.pData.temperature, dtype=float), pbm=pbm_state(self.model)))
         return out
 
 
@@ -1094,14 +1111,17 @@ def hist_real_case(s, with_ttp):
             dict(q=1, d='G', sel=None, col=0, value=float(r.uniform(5e-10, 9e-10)), tk='R>'),
             dict(q=5, d='L', sel='ZR', col=0, value=float(r.uniform(3.9e-3, 3.999e-3)), tk='x<'),
             dict(q=0, d='G', sel=None, col=0, value=float(10 ** r.uniform(-3.5, -3.0)), tk='vf>late')]
-    if with_ttp:      # the model is used for an ordinary run with conditions, then handed to a calculator, then used again
-        ops = gen_ops(r, len(pool), int(r.integers(2, 5)), False, lambda r_: float(r_.choice([150.0, 300.0])), max_solves=1)
-        ops = [('add', int(r.integers(0, len(pool))), bool(r.random() < 0.6))] + [o for o in ops if o[0] != 'reset']
-        ops += [('ttp', [0, 4] if r.random() < 0.5 else [2, 0, 4], 2, 1000.0)]
-        ops += gen_ops(r, len(pool), int(r.integers(1, 4)), False, lambda r_: float(r_.choice([150.0, 300.0])), max_solves=1)
-    else:
-        ops = gen_ops(r, len(pool), int(r.integers(5, 10)), False, lambda r_: float(r_.choice([100.0, 200.0, 300.0])), max_solves=3)
-    return dict(kind='hist-real', s=s, with_ttp=bool(with_ttp), nP=1, nE=1, phases=['AL3ZR'], elements=['ZR'], pool=pool, ops=ops, rk4=False)
+    nT = int(with_ttp)   # temperatures of the calculateTTP call (quick 1, thorough also 2); the reference of each is a fresh model
+    sims = lambda r_: float(r_.choice([100.0, 200.0]))
+    # the model is used for an ordinary run with conditions, reset, handed to a calculator, then used again
+    ops = [('add', int(r.integers(0, len(pool))), bool(r.random() < 0.6))] + gen_ops(r, len(pool), int(r.integers(2, 5)), False, sims, max_solves=1)
+    if not any(o[0] == 'solve' for o in ops):
+        ops.append(('solve', sims(r)))
+    ops.append(('reset',))                      # a direct reset() after a run, before the model is handed on
+    if nT:
+        ops += [('ttp', [0, 2] if (nT == 1 or r.random() < 0.5) else [2, 0, 4], nT, 500.0 if nT == 1 else 1000.0)]
+    ops += gen_ops(r, len(pool), int(r.integers(1, 4)), False, sims, max_solves=1)
+    return dict(kind='hist-real', s=s, with_ttp=int(with_ttp), nP=1, nE=1, phases=['AL3ZR'], elements=['ZR'], pool=pool, ops=ops, rk4=False)
 
 
 class SynthAdapter:
@@ -1115,17 +1135,11 @@ class SynthAdapter:
         c = self.c
         return synth_class()(c['phases'], c['elements'], lambda T, c=c: c['Hs'][round(float(T), 6)])
 
-    _refs = {}
+    pbm_cfg = None           # the scripted model has no population balance model
 
     def reference(self):
-        """a model of the same configuration that never gets a stopping condition (constructing one costs 35 ms: kept per phase/element set)"""
-        c = self.c
-        key = (tuple(c['phases']), tuple(c['elements']))
-        if key not in SynthAdapter._refs:
-            SynthAdapter._refs[key] = self.make()
-        M = SynthAdapter._refs[key]
-        M.script = lambda T, c=c: c['Hs'][round(float(T), 6)]
-        return M
+        """a FRESHLY CONSTRUCTED model of the same configuration that never gets a stopping condition and is never reset"""
+        return self.make()
 
     def after_reset(self, M):
         pass
@@ -1142,23 +1156,21 @@ class RealAdapter(SynthAdapter):
     tag = 'hist-real'
     ref_rtol = 1e-6         # the reference is a second thermodynamics-backed run: compared as numbers, not as the same rows
 
+    # what real_model() passes to setPBMParameters (NOT the defaults 1e-10, 1e-9, 150, 100, 200) + setPSDrecording(True) below
+    pbm_cfg = dict(originalMin=1e-10, originalMax=1e-8, originalBins=75, minBins=50, maxBins=100, adaptive=True, record=True)
+
     def make(self):
         M = real_model()
         M.setConstraints(dtScale=0.05)      # only shortens the initial ramp of the time step
+        M.setPSDrecording(True)
         return M
-
-    def reference(self):
-        return self.make()
-
-    def after_reset(self, M):               # reset() re-creates the population balance with defaults: the user re-applies them
-        M.setPBMParameters(cMin=1e-10, cMax=1e-8, bins=75, minBins=50, maxBins=100)
 
     def solve(self, M, sim):
         from kawin.solver import SolverType
         M.solve(sim, solverType=SolverType.EXPLICITEULER, verbose=False)
 
     def temps(self, nT):
-        return 723.15, 748.15, nT
+        return 733.15, 748.15, nT
 
 
 def hist_adapter(c):
@@ -1176,9 +1188,67 @@ def hist_desc(c, at=None):
     return d
 
 
+# ---- what reset() may and may not change: walk of vars(model)
+# results, population balance CONTENTS, setup flags / scratch storage, latches of the registered conditions
+RESET_MAY_CHANGE = re.compile(r'^(pData|_currY|_isSetup|_precBetaTemp|eqAspectRatio|RdrivingForceIndex|dissolutionIndex|dTemp|iterationSinceTempChange)(\W|$)'
+                              r'|^PBM\[\d+\]\.(PSD|PSDbounds|PSDsize|min|max|bins|_netFlux|_prevPSD|_prevPSDbounds|_recordedBins|_recordedPSD|_recordedTime|maxRatio)$'
+                              r'|^_stoppingConditions\[\d+\]\.(_isSatisfied|_satisfiedTime)$')
+
+
+def _walk(v, path, out, depth=0):
+    if isinstance(v, np.ndarray):
+        raw = repr(v.tolist()).encode() if v.dtype == object else np.ascontiguousarray(v).tobytes()
+        out[path] = (id(v), ('array', v.shape, str(v.dtype), hashlib.sha1(raw).hexdigest()[:12]))
+    elif isinstance(v, (bool, int, float, str, type(None), np.generic, complex)):
+        out[path] = (None, ('value', v.item() if isinstance(v, np.generic) else v))
+    elif isinstance(v, (list, tuple)):
+        out[path] = (id(v) if isinstance(v, list) else None, (type(v).__name__, len(v)))
+        if depth < 5:
+            for i, x in enumerate(v):
+                _walk(x, '%s[%d]' % (path, i), out, depth + 1)
+    elif isinstance(v, dict):
+        out[path] = (id(v), ('dict', sorted(map(repr, v.keys()))))
+        if depth < 5:
+            for k, x in v.items():
+                _walk(x, '%s[%r]' % (path, k), out, depth + 1)
+    elif hasattr(v, '__dict__') and not callable(v) and type(v).__module__.startswith('kawin.precipitation'):
+        out[path] = (id(v), ('object', type(v).__name__))
+        if depth < 5:
+            for k, x in vars(v).items():
+                _walk(x, path + '.' + k, out, depth + 1)
+    else:
+        out[path] = (id(v), ('reference', type(v).__name__))      # functions, thermodynamics, foreign objects: identity only
+
+
+def model_walk(M):
+    """identity and value fingerprint of everything the model holds (parameter objects of kawin.precipitation are entered)"""
+    out = {}
+    for k, v in vars(M).items():
+        if k != 'reset':                 # the harness's own wrapper
+            _walk(v, k, out)
+    return out
+
+
+def walk_diff(a, b):
+    """[(path, what, before, after)] for everything outside RESET_MAY_CHANGE that is not the same object with the same value"""
+    out = []
+    for k in sorted(set(a) | set(b)):
+        if a.get(k) == b.get(k) or RESET_MAY_CHANGE.search(k):
+            continue
+        ka, kb = a.get(k), b.get(k)
+        if kb is None:
+            what = 'attribute-removed'
+        elif ka is None:
+            what = 'attribute-added'
+        else:
+            what = 'replaced-by-another-object' if ka[1] == kb[1] else 'value-changed'
+        out.append((k, what, str(ka)[:120], str(kb)[:120]))
+    return out
+
+
 def drive_hist(c):
     """the whole history on the real classes; one record per call as the model sees it (a calculateTTP is
-    `reset; solve` per temperature)"""
+    `reset; solve` per temperature; on a model with population balance models every run is followed by what it did to the grids)"""
     import warnings
     ad = hist_adapter(c)
     rec, exc = [], None
@@ -1189,12 +1259,28 @@ def drive_hist(c):
         M = ad.make()
         objs = [make_cond(k['q'], k['d'], k['value'], k['sel']) for k in c['pool']]
         lat = lambda: [(bool(o.isSatisfied()), float(o.satisfiedTime())) for o in objs]
+        has_pbm = ad.pbm_cfg is not None
+        resets = []          # every reset() of the model, direct or inside TTPCalculator._getStopTime: what it changed
+
+        if has_pbm:
+            orig_reset = M.reset
+
+            def reset_observed():
+                before = model_walk(M)
+                orig_reset()
+                resets.append(dict(diff=walk_diff(before, model_walk(M)), pbm=pbm_state(M)))
+            M.reset = reset_observed
+            rec.append(dict(k='P', oi=-1, lat=lat(), reg=None, pbm=pbm_state(M), cfg=[dict(ad.pbm_cfg) for _ in c['phases']]))
 
         def reg():
             sc, mo = getattr(M, '_stoppingConditions', None), getattr(M, '_stopConditionMode', None)
             if sc is None or mo is None or len(sc) != len(mo):
                 return None
             return [(next((i for i, o in enumerate(objs) if o is x), -1), bool(b)) for x, b in zip(sc, mo)]
+
+        def grids(oi, st, **kw):
+            for p, g in enumerate(st or []):
+                rec.append(dict(k='G', oi=oi, p=p, g=(g['min'], g['max'], g['bins']), lat=None, reg=None, pbm=st if p == len(st) - 1 else None, **kw))
 
         for oi, op in enumerate(c['ops']):
             if op[0] == 'add':
@@ -1204,12 +1290,14 @@ def drive_hist(c):
                 M.clearStoppingConditions()
                 rec.append(dict(k='C', oi=oi, lat=lat(), reg=reg()))
             elif op[0] == 'reset':
-                M.reset(); ad.after_reset(M)
-                rec.append(dict(k='R', oi=oi, lat=lat(), reg=reg()))
+                M.reset()
+                rec.append(dict(k='R', oi=oi, lat=lat(), reg=reg(), rst=resets[-1] if has_pbm else None, pbm=resets[-1]['pbm'] if has_pbm else None))
             elif op[0] == 'solve':
                 k0 = int(M.pData.n)
                 ad.solve(M, op[1])
                 rec.append(dict(k='S', oi=oi, k0=k0, tf=float(M.finalTime), m=int(M.pData.n), H=pdata_hist(M.pData), lat=lat(), reg=reg(), sim=op[1]))
+                if has_pbm:
+                    grids(oi, pbm_state(M))
             elif op[0] == 'ttpinit':
                 TTPCalculator(M, [objs[i] for i in op[1]])
                 rec.append(dict(k='T', oi=oi, idx=list(op[1]), lat=lat(), reg=reg()))
@@ -1218,20 +1306,60 @@ def drive_hist(c):
                 rec.append(dict(k='T', oi=oi, idx=list(op[1]), lat=lat(), reg=reg()))
                 pool = SnapPool(M, objs)
                 Tlo, Thi, nT = ad.temps(op[2])
+                nr = len(resets)
                 ttp.calculateTTP(Tlo, Thi, nT, op[3], pool=pool)
                 table = np.array(ttp.transformationTimes, dtype=float)
                 for ti, sn in enumerate(pool.snaps):
-                    # independent reference: the same configuration WITHOUT stopping conditions through the same calls
-                    ref = ad.reference(); ref.reset(); ref.setTemperature(sn['T'])
+                    # independent reference: a FRESHLY CONSTRUCTED model of the same configuration (same builder, same
+                    # setPBMParameters / setPSDrecording), no stopping conditions, never reset; same setTemperature / solve call
+                    ref = ad.reference(); ref.setTemperature(sn['T'])
                     ref.solve(op[3], verbose=True, vIt=1000)
-                    rec.append(dict(k='R', oi=oi, lat=None, reg=None, ttp=True))
+                    rst = resets[nr + ti] if (has_pbm and nr + ti < len(resets)) else None
+                    rec.append(dict(k='R', oi=oi, lat=None, reg=None, ttp=True, T=sn['T'], rst=rst, pbm=rst['pbm'] if rst else None))
                     rec.append(dict(k='S', oi=oi, k0=0, tf=sn['tf'], m=int(sn['m']), H=sn['H'], lat=sn['post'], reg=None, ttp=True, T=sn['T'], idx=list(op[1]),
                                     ret=[float(v) for v in sn['ret']], row=[float(v) for v in table[ti]], maxTime=float(op[3]),
                                     ref=dict(H=pdata_hist(ref.pData), m=int(ref.pData.n)), temperature=sn['temperature']))
+                    if has_pbm:
+                        grids(oi, sn.get('pbm'), ttp=True)
                 rec[-1]['reg'] = reg()
     except Exception as e:
         exc = excinfo(e)
     return rec, exc
+
+
+def oracle_reset(res, c, R, desc):
+    """structure: reset() leaves the model as the user configured it"""
+    ad = hist_adapter(c)
+    rst = R.get('rst')
+    if rst is None:
+        return
+    d2 = dict(desc, reset='inside TTPCalculator._getStopTime (T = %r)' % R.get('T') if R.get('ttp') else 'direct call')
+    res.count('%s:reset-observed:%s' % (ad.tag, 'inside-ttp' if R.get('ttp') else 'direct'))
+    st = rst['pbm'] or []
+    if len(st) != len(c['phases']):
+        res.violate('hist:reset-changes-model-configuration:PBM.count', 'number of population balance models after reset()', d2, len(st), len(c['phases']))
+    for p, g in enumerate(st):
+        for nm, want in ad.pbm_cfg.items():
+            if g[nm] != want:
+                res.violate('hist:reset-changes-model-configuration:PBM.%s' % nm,
+                            'after reset() the population balance model of phase %d has %s = %r; configured by setPBMParameters / setPSDrecording: %r' % (p, nm, g[nm], want),
+                            d2, g[nm], want)
+        for nm, want in (('min', ad.pbm_cfg['originalMin']), ('max', ad.pbm_cfg['originalMax']), ('bins', ad.pbm_cfg['originalBins']),
+                         ('psd_len', ad.pbm_cfg['originalBins']), ('grid_is_linspace', True), ('psd_zero', True), ('recorded_rows', 1 if ad.pbm_cfg['record'] else None)):
+            if g[nm] != want:
+                res.violate('hist:reset-changes-model-configuration:PBM.grid.%s' % nm,
+                            'after reset() the grid of phase %d is not the configured initial grid: %s = %r, configured %r' % (p, nm, g[nm], want), d2, g[nm], want)
+    # everything else the model holds: only results, PBM contents, latches and setup flags may differ
+    seen = set()
+    for path, what, before, after in rst['diff']:
+        key = re.sub(r'\[\d+\]', '[*]', path)
+        if key in seen:
+            continue
+        seen.add(key)
+        res.violate('hist:reset-changes-model-configuration:%s' % key, 'reset() changed %s (%s); only result arrays, population balance contents, '
+                    'stopping-condition latches and setup flags may differ' % (path, what), d2, after, before)
+        if len(seen) >= 6:
+            break
 
 
 def oracle_hist(res, c, rec, exc):
@@ -1250,6 +1378,9 @@ def oracle_hist(res, c, rec, exc):
         elif k == 'R':
             for i, _ in sh_reg:
                 sh_lat[i] = (False, -1.0)
+            oracle_reset(res, c, R, desc)
+        elif k in ('P', 'G'):
+            pass
         elif k == 'T':
             carried = reg_class(sh_reg).replace('-registered', '')
             sh_reg = [(i, False) for i in R['idx']]; past = 'after-ttp-constructor'
@@ -1277,8 +1408,8 @@ def oracle_hist(res, c, rec, exc):
                     else:
                         ok = got == -1.0
                     if not ok:
-                        res.violate('hist:%s:time-differs-from-run-without-conditions' % cls,
-                                    'calculator condition %d (%s %s %r): reported %r, but an identically configured model run WITHOUT stopping conditions to maxTime crosses at %r'
+                        res.violate('hist:%s:time-differs-from-fresh-model-of-same-configuration' % cls,
+                                    'calculator condition %d (%s %s %r): reported %r, but a FRESHLY CONSTRUCTED model of the same configuration (never reset, no stopping conditions) run to maxTime crosses at %r'
                                     % (j, CLASSES[c['pool'][R['idx'][j]]['q']], c['pool'][R['idx'][j]]['d'], c['pool'][R['idx'][j]]['value'], got, e[1]), d2, got, e[1])
                         break
                 if ad.tag == 'hist-real' and not np.all(R['temperature'] == R['T']):
@@ -1295,7 +1426,7 @@ def oracle_hist(res, c, rec, exc):
             regd = set(i for i, _ in sh_reg)
             for i in range(K):
                 if tuple(R['lat'][i]) != tuple(sh_lat[i]):
-                    res.violate('hist:latch-wrong-after-%s:%s' % ({'A': 'add', 'C': 'clear', 'R': 'reset', 'T': 'ttp-constructor', 'S': 'solve'}[k],
+                    res.violate('hist:latch-wrong-after-%s:%s' % ({'A': 'add', 'C': 'clear', 'R': 'reset', 'T': 'ttp-constructor', 'S': 'solve', 'P': 'model-construction', 'G': 'solve'}[k],
                                                                  'registered-object' if i in regd else 'unregistered-object'),
                                 'pool object %d reports %r after call %d; by the calls made so far it must report %r' % (i, R['lat'][i], R['oi'], sh_lat[i]),
                                 desc, list(R['lat'][i]), list(sh_lat[i]))
@@ -1314,6 +1445,11 @@ def hist_line(c, rec):
             toks.append(R['k'])
         elif R['k'] == 'T':
             toks.append('T ' + vlib.enc_ilist(R['idx']))
+        elif R['k'] == 'P':      # what the harness passed to setPBMParameters / setPSDrecording (not read back from the model)
+            toks.append('P %d %s' % (len(R['cfg']), ' '.join('%s %s %d %d %d %s %s' % (f2b(g['originalMin']), f2b(g['originalMax']), g['originalBins'], g['minBins'], g['maxBins'],
+                                                                                     'T' if g['adaptive'] else 'F', 'T' if g['record'] else 'F') for g in R['cfg'])))
+        elif R['k'] == 'G':      # what the run did to the grid (an input of the model, like the pData history)
+            toks.append('G %d %s %s %d' % (R['p'], f2b(R['g'][0]), f2b(R['g'][1]), R['g'][2]))
         else:
             toks.append('S %s %s %d %d' % (enc_hist(c['nP'], c['nE'], R['H']), f2b(R['tf']), len(R['H']['time']) + 5, R['k0']))
     return ' '.join(toks)
@@ -1332,7 +1468,14 @@ def compare_hist(res, c, rec, ln):
         m = t.nat(); stopped = t.bool()
         lat = [(t.bool(), t.flt()) for _ in range(K)]
         reg = [(t.nat(), t.bool()) for _ in range(t.nat())]
+        pbm = [dict(originalMin=t.flt(), originalMax=t.flt(), originalBins=t.nat(), minBins=t.nat(), maxBins=t.nat(), adaptive=t.bool(), record=t.bool(),
+                    min=t.flt(), max=t.flt(), bins=t.nat()) for _ in range(t.nat())]
         d2 = dict(desc, at_call=R['oi'], call=R['k'])
+        if R.get('pbm') is not None:
+            res.count('hist:population-balance-configuration-compared')
+            got = [{k: g[k] for k in pbm[0]} for g in R['pbm']] if pbm else [dict(g) for g in R['pbm']]
+            if got != pbm:
+                res.disagree('population balance models (configuration, grid in use) after a call of a history', d2, got, pbm); return
         if R['k'] == 'S':
             if m != R['m']:
                 res.disagree('last row of a run inside a history', d2, R['m'], m); return
@@ -1390,8 +1533,19 @@ def part_hist(ctx, res, N, oracle_only, real=()):
 
 
 # ---------------------------------------------------------------- combination alone (exhaustive small)
+_COMB = {}
+
+
 def comb_one(modes, sats):
-    M = synth_class()(['A'], ['X'], lambda T: None)
+    # up to two conditions: a new model per pattern; three and four conditions (320 patterns): ONE model, emptied with
+    # clearStoppingConditions() before each pattern (constructing a model costs 35 ms; the patterns and the predicate are the same)
+    if len(modes) <= 2:
+        M = synth_class()(['A'], ['X'], lambda T: None)
+    else:
+        if 'M' not in _COMB:
+            _COMB['M'] = synth_class()(['A'], ['X'], lambda T: None)
+        M = _COMB['M']
+        M.clearStoppingConditions()
     for mo, sa in zip(modes, sats):
         o = make_cond(0, 'G', 0.5, None)
         o._isSatisfied = sa; o._satisfiedTime = 1.0 if sa else -1
@@ -1451,8 +1605,8 @@ def corr(ctx, oracle_only=False, scale=1):
     guard(res, 'part-obj', {}, part_obj, ctx, res, ctx.n(1200, 30000) * scale, oracle_only)
     guard(res, 'part-synth', {}, part_synth, ctx, res, ctx.n(250, 6000) * scale, oracle_only)
     guard(res, 'part-ttp-synth', {}, part_ttp_synth, ctx, res, ctx.n(40, 800) * scale, oracle_only)
-    guard(res, 'part-hist', {}, part_hist, ctx, res, ctx.n(120, 2500) * scale, oracle_only,
-          [False] * 6 + [True] if ctx.thorough else [False])
+    guard(res, 'part-hist', {}, part_hist, ctx, res, ctx.n(100, 2500) * scale, oracle_only,
+          [1] * 5 + [0, 2] if ctx.thorough else [1])
     if ctx.thorough:
         guard(res, 'part-real', {}, part_real, ctx, res, ['all-and', 'or-mix', 'never', 'never'] + ['any'] * 10 + ['or-mix'] * 4, oracle_only)
         guard(res, 'part-ttp-real', {}, part_ttp_real, ctx, res, oracle_only)
@@ -1498,7 +1652,7 @@ def replay(ctx, entry):
             else:
                 oracle_ttp(r, ttp_desc(c), c['conds'], pool.snaps, table, kind)
         elif kind in ('hist', 'hist-real'):
-            c = hist_case(s) if kind == 'hist' else hist_real_case(s, bool(case.get('with_ttp')))
+            c = hist_case(s) if kind == 'hist' else hist_real_case(s, int(case.get('with_ttp') or 0))
             rec, exc = drive_hist(c)
             if exc is not None:
                 report_exc(r, 'history-of-calls', hist_desc(c), exc)
